@@ -206,8 +206,10 @@ def check_pool(dc, sc, res, rng, proto, disk_name, keys, label):
                 if not any(type(k) is type(s) and (k == s) for s in e['keys']):
                     res.violation('%s yielded %r (%s); stored under that identity: %r' % (
                         name, k, type(k).__name__, e['keys']), {'label': label, 'key': k, 'stored': e['keys']})
-            if len(it) == len(cache) and len(seen) != len(ref) and len(cache) == len(ref):
-                res.violation('%s covered %d of %d identities' % (name, len(seen), len(ref)), {'label': label})
+            if seen != set(ref):
+                missing = [ref[i]['keys'][0] for i in ref if i not in seen]
+                res.violation('%s yielded %d of %d stored identities; never yielded: %r' % (name, len(seen), len(ref), missing[:5]),
+                              {'label': label, 'missing': missing[:10]})
     finally:
         cache.close()
         sc.drop(d)
@@ -323,6 +325,16 @@ def run_shard(tier, seed, shard, nshards, res):
             check_pool(dc, sc, res, rng, proto, 'Disk', keys, label)
             if len(res.samples) < 2:
                 res.sample({'label': label, 'keys': keys[:25]})
+        # a key and the bytes equal to its serialized form sitting exactly on the page boundaries of sorted iteration
+        # (first row is fetched alone, then pages of 100), in both directions
+        for proto in sorted({shard % 6, (shard + 3) % 6}):
+            for k in (None, (1, 2), True, 2**70):
+                alias = pickletools.optimize(pickle.dumps(k, protocol=proto))
+                for n_before, n_after in ((0, 0), (0, 3), (99, 0), (100, 0), (101, 2), (3, 100), (2, 99)):
+                    keys = list(range(n_before)) + [k, alias] + [alias + b'\xff' + bytes([i]) for i in range(n_after)]
+                    rng.shuffle(keys)
+                    check_pool(dc, sc, res, rng, proto, 'Disk', keys,
+                               'c02 boundary proto=%d key=%r before=%d after=%d' % (proto, k, n_before, n_after))
         # designated pairs through every lookup flavour
         rng = common.rng_for(seed, 'c02f', shard)
         proto = shard % 6
